@@ -35,7 +35,27 @@ func (p *Program) ifaceContract(c *ssa.CallCommon) *Contract {
 	if n.Obj().Pkg() == nil {
 		key = "." + n.Obj().Name() + "." + c.Method.Name()
 	}
-	return p.cs.Funcs[key]
+	if ct := p.cs.Funcs[key]; ct != nil {
+		return ct
+	}
+	// the method may be declared by an embedded interface that has the contract
+	if n.Obj().Pkg() != nil {
+		sc := n.Obj().Pkg().Scope()
+		for _, name := range sc.Names() {
+			tn, ok := sc.Lookup(name).(*types.TypeName)
+			if !ok {
+				continue
+			}
+			it, ok := tn.Type().Underlying().(*types.Interface)
+			if !ok || !types.Implements(rt, it) {
+				continue
+			}
+			if ct := p.cs.Funcs[relPkgPath(n.Obj().Pkg())+"."+name+"."+c.Method.Name()]; ct != nil {
+				return ct
+			}
+		}
+	}
+	return nil
 }
 
 func (p *Program) inModule(fn *ssa.Function) bool {
@@ -179,7 +199,7 @@ func (ex *Exec) havocResults(st *State, res *types.Tuple, hint string) Value {
 func (ex *Exec) callbackCall(fr *Frame, st *State, c *ssa.CallCommon, fv Value, args []Value, pos token.Pos) Value {
 	ex.vc.note("callback parameters are assumed not to write the callee's footprint (%s)", funcKey(fr.fn))
 	// record emission in ghost multiset when the function declares emits
-	if fr.top && fr.contract != nil && len(fr.contract.Emits) > 0 && len(args) == 1 {
+	if fr.top && fr.contract != nil && len(args) == 1 {
 		if t, ok := args[0].(Term); ok {
 			ex.emit(st, t)
 		}
@@ -334,6 +354,9 @@ func (ex *Exec) contractEnv(st, old *State, fn *ssa.Function, ct *Contract, name
 	if pk := ex.prog.typesPkgByRel(ct.PkgPath); pk != nil {
 		env.pkg = pk
 	}
+	if fn != nil {
+		env.cbElem = callbackElemType(fn)
+	}
 	for i, n := range names {
 		if i < len(args) {
 			env.vars[n] = args[i]
@@ -421,6 +444,13 @@ func (ex *Exec) applyContract(fr *Frame, st *State, fn *ssa.Function, ct *Contra
 	old := st.clone()
 	// frame: havoc what the callee may modify
 	ex.havocContractMods(fr, st, old, ct, pre)
+	// a callee that is handed a callback may invoke it: unless it declares exact emissions, the ghost is havocked
+	if fn != nil && len(ct.Emits) == 0 {
+		if et := callbackElemType(fn); et != nil {
+			ex.emittedGet(st, et)
+			st.ghost["$emitted"] = ex.vc.fresh("emitted", sx("Array", ex.vc.tc.sortOf(et), "Int"))
+		}
+	}
 	// results
 	res := ex.havocResults(st, sig.Results(), ct.Name)
 	post := ex.contractEnv(st, old, fn, ct, names, args)
@@ -429,10 +459,19 @@ func (ex *Exec) applyContract(fr *Frame, st *State, fn *ssa.Function, ct *Contra
 		_ = u // unfold clauses are for verifying the body, not for callers
 	}
 	for _, e := range ct.Ensures {
-		if e.Behav != "" && e.Behav != "nocollision" {
-			continue
+		g := post.evalTerm(e.Expr, types.Typ[types.Bool]).S
+		if e.Behav != "" {
+			preOld := ex.contractEnv(old, nil, fn, ct, names, args)
+			var as []string
+			for _, a := range ct.BehavAssumes[e.Behav] {
+				as = append(as, preOld.evalTerm(a.Expr, types.Typ[types.Bool]).S)
+			}
+			if len(as) == 0 {
+				continue // a behaviour without assumptions that is not proved (known finding) must not be relied on
+			}
+			g = sImp(sAnd(as...), g)
 		}
-		ex.assume(st, post.evalTerm(e.Expr, types.Typ[types.Bool]).S)
+		ex.assume(st, g)
 	}
 	// callee emissions through a callback that the caller passed on: on success exactly the declared counts
 	for _, e := range ct.Emits {
@@ -475,6 +514,11 @@ func (ex *Exec) applyPureContract(st *State, fn *ssa.Function, ct *Contract, arg
 	rt := rs.At(0).Type()
 	ex.vc.declareFun(name, "("+strings.Join(sorts, " ")+")", ex.vc.tc.sortOf(rt))
 	res := Term{S: sx(name, actuals...), T: rt}
+	if ct.Opts["reads"] == "" {
+		// heap-independent: its contract is one universally quantified background fact
+		ex.pureAxiom(fn, ct, name, rt)
+		return res
+	}
 	if ex.pureExpanding == nil {
 		ex.pureExpanding = map[string]int{}
 	}
@@ -498,6 +542,54 @@ func (ex *Exec) applyPureContract(st *State, fn *ssa.Function, ct *Contract, arg
 		ex.assume(st, sImp(sAnd(pres...), env.evalTerm(e.Expr, types.Typ[types.Bool]).S))
 	}
 	return res
+}
+
+// pureAxiom: forall params. requires ==> ensures[result := f(params)], generated once per function.
+func (ex *Exec) pureAxiom(fn *ssa.Function, ct *Contract, name string, rt types.Type) {
+	if ex.autoDone == nil {
+		ex.autoDone = map[string]bool{}
+	}
+	if ex.autoDone["pure:"+name] {
+		return
+	}
+	ex.autoDone["pure:"+name] = true
+	if len(ct.Ensures) == 0 {
+		return
+	}
+	scratch := &State{pc: "true", cells: map[*ssa.Alloc]Value{}, heap: map[string]string{}, ghost: map[string]string{}}
+	var decls, bvs []string
+	var args []Value
+	var names []string
+	for _, p := range fn.Params {
+		ex.vc.counter++
+		bv := fmt.Sprintf("q_%s_%d", p.Name(), ex.vc.counter)
+		decls = append(decls, "("+bv+" "+ex.vc.tc.sortOf(p.Type())+")")
+		bvs = append(bvs, bv)
+		args = append(args, Term{S: bv, T: p.Type()})
+		names = append(names, p.Name())
+	}
+	app := sx(name, bvs...)
+	env := ex.contractEnv(scratch, scratch, fn, ct, names, args)
+	env.vars["result"] = Term{S: app, T: rt}
+	env.vars["ret0"] = Term{S: app, T: rt}
+	ex.vc.noDefine++
+	var pres, posts []string
+	func() {
+		defer func() { ex.vc.noDefine-- }()
+		for _, r := range ct.Requires {
+			pres = append(pres, env.evalTerm(r.Expr, types.Typ[types.Bool]).S)
+		}
+		for _, e := range ct.Ensures {
+			if e.Behav != "" {
+				continue
+			}
+			posts = append(posts, env.evalTerm(e.Expr, types.Typ[types.Bool]).S)
+		}
+	}()
+	if len(posts) == 0 {
+		return
+	}
+	ex.vc.addAxiom("pure_"+name, fmt.Sprintf("(forall (%s) (! %s :pattern (%s)))", strings.Join(decls, " "), sImp(sAnd(pres...), sAnd(posts...)), app), name)
 }
 
 // ensureComp registers a heap component given by name "pkg.Type.field".
@@ -583,6 +675,12 @@ func (ex *Exec) havocTarget(st, old *State, ct *Contract, m *Clause, pre *SpecEn
 	if comp, ft, ok := ex.modTargetComp(ct, m); ok {
 		ex.heapGet(st, comp, ft)
 		st.heap[comp] = vc.fresh("Hc_"+comp, ex.compSort(comp))
+		return
+	}
+	if comp, idx, rt, ok := ex.ghostTarget(pre, m.Expr); ok {
+		cur := ex.ghostCur(st, comp)
+		nv := vc.fresh("gv", vc.tc.sortOf(rt))
+		st.ghost[comp] = vc.define("G_"+mangle(comp), ex.compSort(comp), sx("store", cur, idx, nv))
 		return
 	}
 	// "T.f in S": component restricted to a set of references
